@@ -177,25 +177,28 @@ fn scalar_job(job: &J) -> J {
 }
 
 /// What the getters of a register inside a driver callback expose: the value and, for the vector classes,
-/// the first- and second-order parts as multisets (sorted bit patterns; the row/column convention of the
-/// matrix-valued getters is not part of C17).
+/// the first- and second-order parts entry by entry: vectors in index order (entry i belongs to variable i);
+/// matrices row by row with their shape (the Python side accepts rows-of-columns or columns-of-rows: which of the two a
+/// matrix-valued getter hands out is an API choice C17 does not fix; any other arrangement is a different value).
 trait CbParts {
     fn cb(&self) -> J;
 }
-fn sorted_bits<'a>(it: impl Iterator<Item = &'a f64>) -> Vec<String> {
-    let mut v: Vec<String> = it.map(|x| hexbits(*x)).collect();
-    v.sort();
-    v
-}
-/// entries of an optional part as a sorted multiset; None when the part is absent (public API only)
-fn part<R: nalgebra::Dim, C: nalgebra::Dim>(d: &Derivative<f64, f64, R, C>, r: R, c: C) -> Option<Vec<String>>
+/// entries of an optional part, row by row, with its shape; None when the part is absent (public API only)
+fn part<R: nalgebra::Dim, C: nalgebra::Dim>(d: &Derivative<f64, f64, R, C>, r: R, c: C) -> Option<J>
 where
     nalgebra::DefaultAllocator: nalgebra::allocator::Allocator<R, C>,
 {
     if *d == Derivative::none() {
         None
     } else {
-        Some(sorted_bits(d.clone().unwrap_generic(r, c).iter()))
+        let m = d.clone().unwrap_generic(r, c);
+        let mut rm = vec![];
+        for i in 0..m.nrows() {
+            for j in 0..m.ncols() {
+                rm.push(hexbits(m[(i, j)]));
+            }
+        }
+        Some(json!({"r": m.nrows(), "c": m.ncols(), "rm": rm}))
     }
 }
 impl CbParts for DualDVec64 {
@@ -210,13 +213,16 @@ impl CbParts for Dual2DVec64 {
 }
 impl CbParts for HyperDualDVec64 {
     fn cb(&self) -> J {
+        // the Python getter hands out the pair (eps1, eps2): the entries of eps1 in order, then those of eps2
         let (a, b) = (part(&self.eps1, nalgebra::Dyn(0), nalgebra::Const::<1>), part(&self.eps2, nalgebra::Const::<1>, nalgebra::Dyn(0)));
-        let first: Option<Vec<String>> = match (a, b) {
+        let first: Option<J> = match (a, b) {
             (None, None) => None,
             (a, b) => {
-                let mut v: Vec<String> = a.unwrap_or_default().into_iter().chain(b.unwrap_or_default()).collect();
-                v.sort();
-                Some(v)
+                let mut rm: Vec<J> = vec![];
+                for p in [a, b].into_iter().flatten() {
+                    rm.extend(p["rm"].as_array().expect("rm").iter().cloned());
+                }
+                Some(json!({"r": rm.len(), "c": 1, "rm": rm}))
             }
         };
         json!({"value": bits(self.re), "first": first, "second": part(&self.eps1eps2, nalgebra::Dyn(0), nalgebra::Dyn(0))})
